@@ -1,6 +1,8 @@
 """Function-by-function verification: generates the obligations of one function under contract."""
 from __future__ import annotations
 
+import os
+
 import ast
 import time
 
@@ -408,6 +410,9 @@ class Exec(HeapMixin, SpecEvalMixin, ExprMixin, StmtMixin, CallMixin):
                 o = self.decls.fresh("frame_obj", INT)
             cond = And(Lt(I(0), o), Lt(o, entry.alloc), *[Ne(o, p) for p in perm])
             goals.append((key, Implies(cond, Eq(select(final, o), select(init, o)))))
-        if goals:
+        if goals and os.environ.get("VERIF_FRAME_SPLIT"):
+            for k_, g_ in goals:          # development aid: one obligation per heap key
+                self.oblige(fin, g_, "frame", "unchanged-outside-modifies:" + k_, meta={"keys": [k_]})
+        elif goals:
             self.oblige(fin, And(*[g for _, g in goals]), "frame", "unchanged-outside-modifies",
                         meta={"keys": [k for k, _ in goals]})
